@@ -22,12 +22,15 @@ open Ledger.Base Ledger.Core Ledger.Spec Ledger.Query Ledger.Reads
     selected iff `Filter.eval` holds. -/
 theorem eval3_eq_eval_of_defined (nullBalance : Bool) (e : Entity) (f : Filter)
     (h : ∀ l ∈ f.leaves, leafIsNull nullBalance e l.1 l.2.1 l.2.2 = false) :
-    selects nullBalance (some f) e = Filter.eval (leafSem parseRFC3339 e) f := by
-  have h3 := eval3_defined (leafIsNull nullBalance e) (leafSem parseRFC3339 e) f h
-  show (eval3 (sem3 nullBalance e) f == some true) = _
-  unfold sem3
-  rw [h3]
-  cases Filter.eval (leafSem parseRFC3339 e) f <;> rfl
+    selects nullBalance (some f) e = Filter.eval (leafSemR metaInCurrent e) f := by
+  have h3 := eval3_defined (leafIsNull nullBalance e) (leafSemR metaInCurrent e) f h
+  show (eval3 (sem3V metaInCurrent nullBalance e) f == some true) = _
+  have hsem : sem3V metaInCurrent nullBalance e =
+      fun op k v => if leafIsNull nullBalance e op k v then none else some (leafSemR metaInCurrent e op k v) := by
+    funext op k v
+    simp [sem3V, metaInCurrent]
+  rw [hsem, h3]
+  cases Filter.eval (leafSemR metaInCurrent e) f <;> rfl
 
 /-- No filter selects everything. -/
 theorem no_filter_selects_all (nullBalance : Bool) (e : Entity) : selects nullBalance none e = true := rfl
@@ -47,9 +50,13 @@ theorem accounts_list_eq_filter_eval (feat : Features) (l : Ledger) (pit : Optio
     cases h2 : accountFilterCheck feat pit.isSome f with
     | error e => simp [h1, h2, bind, Except.bind] at h
     | ok _ =>
-      simp only [h1, h2, bind, Except.bind, pure, Except.pure, Except.ok.injEq] at h
-      subst h
-      exact ⟨rfl, fun v => List.mem_filter⟩
+      simp only [h1, h2, bind, Except.bind, pure, Except.pure] at h
+      by_cases hc : (usesGenericBalance f &&
+          (accountsAt feat l pit).any fun v => decide ((accountBalances l pit v.address).length ≥ 2)) = true
+      · simp [hc, throw, throwThe, MonadExceptOf.throw] at h
+      · simp only [hc, Bool.false_eq_true, if_false, Except.ok.injEq] at h
+        subst h
+        exact ⟨rfl, fun v => List.mem_filter⟩
 
 /-- The same for transactions. -/
 theorem transactions_list_eq_filter_eval (feat : Features) (l : Ledger) (pit : Option Int) (f : Option Filter)
@@ -90,8 +97,8 @@ example :
                             updatedAt := 0, reference := "", metadata := [], revertedAt := none }
     let withRef : TxView := { noRef with reference := "r" }
     let f : Filter := .not (.leaf .match_ "reference" (.sc (.str "x")))
-    (selects true (some f) (txEntity noRef), Filter.eval (leafSem parseRFC3339 (txEntity noRef)) f,
-     selects true (some f) (txEntity withRef), Filter.eval (leafSem parseRFC3339 (txEntity withRef)) f) =
+    (selects true (some f) (txEntity noRef), Filter.eval (leafSemR metaInCurrent (txEntity noRef)) f,
+     selects true (some f) (txEntity withRef), Filter.eval (leafSemR metaInCurrent (txEntity withRef)) f) =
     (false, true, true, true) := by decide
 
 end Ledger.C20r
